@@ -40,7 +40,7 @@ if rc != 0:
     sh(f"git diff > {wt}/SEED_rebased.diff", wt); patch = f"{wt}/SEED_rebased.diff"
     sh(f"git apply -R {patch}", wt)
 demo_text = str(meta.get("demo", ""))
-m = re.search(r"(go1\.26\.8 test[^\n;`\"']*|(?<![\w.])go test[^\n;`\"']*)", demo_text)
+m = re.search(r"(go1\.26\.8 test[^\n;`]*|(?<![\w.])go test[^\n;`]*)", demo_text)
 cmd = m.group(1).strip() if m else None
 if cmd:
     cmd = re.split(r"\s+\(|\s{2,}|\s+->|\s+—|\s+#", cmd)[0].strip().rstrip(".,:")
